@@ -10,10 +10,10 @@ TEXT = {
          "partial: chain histories (pipe.rs, txhashset) are not claimed; Block::validate is decided for the smallest block only (thorough tier); known finding: sum_kernel_offsets ignores the negative offsets when no positive one is non-zero (witness obligation, KNOWN-FINDING); model group Z_2^16^2; trusted: rustc->Kani->CBMC->CaDiCaL and the stubs listed in evidence"),
  "C04": ("Bounded proof (Kani/CBMC) that the retarget functions are total, floored, damped/clamped and that the version schedule / graph weight arithmetic, the DMA/WTEMA dispatch and the choice of the PoW scaling factor follow the rules, for fully symbolic difficulty windows.",
          "partial: pipe::validate_header sequencing, DifficultyIter (LMDB), PoW and header-MMR root not claimed; bounds on window values stated in evidence"),
- "C05": ("Bounded proof (Kani/CBMC): Cuckatoo cycle verification agrees with an oracle written from the graph definition for every nonce tuple and every assignment of endpoints (proof size 2 quick, 4 thorough); PoW variant selection; proof (de)serialisation bit-exact, in-range, canonical padding.",
-         "partial: the four cuckaroo* verifiers' cycle logic and proof sizes above 4 are not decided; the graph-seeding hash is replaced by an arbitrary function; per-query edge_bits and proof size are concrete"),
- "C07": ("Bounded proof (Kani/CBMC): MMR position arithmetic equals the defining append rule; PMMR construction (sizes, node hashes, root, validate) over VecBackend equals the definition; a proof exists and verifies for every leaf.",
-         "bounds: position widths and MMR sizes (2-3 leaves quick) per obligation in evidence; the proof-soundness clause (corrupted proofs fail) is only a thorough-tier attempt under an ideal-hash stub and is not part of the claim"),
+ "C05": ("Bounded proof (Kani/CBMC): all five cycle verifiers (Cuckatoo, Cuckaroo, Cuckarood, Cuckaroom, Cuckarooz) agree with oracles written from each variant's graph definition for every nonce tuple and every assignment of endpoints (proof size 2 quick, 4 thorough); PoW variant selection; proof (de)serialisation bit-exact, in-range, canonical padding.",
+         "partial: proof sizes above 4 and siphash itself are not decided; the graph-seeding hash is replaced by an arbitrary function; per-query edge_bits and proof size are concrete"),
+ "C07": ("Bounded proof (Kani/CBMC): MMR position arithmetic equals the defining append rule; PMMR construction (sizes, node hashes, root, validate) over VecBackend equals the definition; a proof exists and verifies for every leaf; MerkleProof::verify on an arbitrary proof accepts exactly when the defining fold over the whole path yields the root.",
+         "bounds: position widths and MMR sizes (2-3 leaves quick) per obligation in evidence; soundness against hash collisions is not claimed (the fold obligation states acceptance exactly; the ideal-hash attempts never finished)"),
  "C08": ("Bounded proof (Kani/CBMC) by induction on the prune list's operations: from ANY valid prune-list state (maximal pruned subtrees + defining prefix sums, symbolic) every query equals the definition, and one real append / init_caches re-establishes such a state for the enlarged pruned set.",
          "partial: prune-list arithmetic over a correct bitmap (CRoaring replaced by a 64-value bitset); universe 31 positions quick / 63 thorough, at most 3 (4) entries in the pre-state; the file layer, PMMRBackend index translation, reopen and chain-level compaction are not claimed"),
  "C20": ("Bounded proof (Kani/CBMC) of the recoverability encoding that is left in Rust: key id <-> derivation path round trips, and for both proof-builder generations the rewind message written for (key id, switch) is read back as exactly that for the wallet's own commitment while any other message byte, amount, length or wallet recovers nothing (model keychain with an injective commit); BlindingFactor::split is the group difference.",
@@ -26,8 +26,8 @@ TEXT = {
          "partial: cut_through instantiated with a cheap-Ord element type; aggregate / deaggregate / hydrate_from over the hash-ordered types are attempt-tier obligations that never finished and are not claimed"),
  "C13": ("Bounded proof (Kani/CBMC) of the stateless height rules: absolute kernel lock heights in blocks, NRD relative-height range, body lock_height.",
          "partial: coinbase maturity, NRD index and every fork/rewind clause need LMDB/file state and are not claimed"),
- "C14": ("Bounded proof (Kani/CBMC) of the arithmetic the pool's fee gate compares (weight, fee, fee shift, shifted fee, accept fee) on real transactions with symbolic fee fields and configuration.",
-         "thin partial claim: TransactionPool::add_to_pool itself is a thorough-tier attempt (empty pools, tagging stub for standalone validation); pool histories, eviction and mining selection are not claimed"),
+ "C14": ("Bounded proof (Kani/CBMC) of the arithmetic the pool's fee gate compares (weight, fee, fee shift, shifted fee, accept fee) on real transactions with symbolic fee fields and configuration; thorough tier: Pool::add_to_pool on an empty pool stores an entry only if the aggregate validated, the chain's utxo check passed and the kernel sums balance.",
+         "thin partial claim: TransactionPool::add_to_pool sequencing is an attempt-tier obligation that never finished; pool histories, eviction and mining selection are not claimed"),
  "C16": ("Bounded proof (Kani/CBMC): segment identifier arithmetic equals the closed forms of the MMR definition; a segment exists iff its first leaf is inside the MMR and what from_pmmr produces validates against the root (also under a merged root); a fully spent segment's ancestor hash is accepted iff no leaf under the ancestor is unspent in the bitmap.",
          "partial: MMRs of 3 leaves (completeness) / 8 leaves (pruned ancestor) quick; the corruption-is-rejected clause is only a thorough-tier attempt under an ideal-hash stub; segmenter/desegmenter end-to-end not claimed"),
  "C19": ("Bounded proof (Kani/CBMC) of frame-header limits for every 11-byte header and chain type, writer/reader agreement on the frame header, and typed message sequences (known, unknown, known) written by the real writer and read back through read_message over a fragmenting reader.",
